@@ -441,10 +441,16 @@ theorem Pres.readCrxMoov : Pres readCrxMoov := by
   pres
   all_goals exact Pres.innerLoop Pres.crxHandler .ret _
 
-theorem Pres.readPreview : Pres readPreview := by
-  unfold Bmff.readPreview
+theorem Pres.prvwBody (t : Bytes) : Pres (prvwBody t) := by
+  unfold Bmff.prvwBody
   pres
   all_goals exact Pres.callback _ _
+
+theorem Pres.readPreview : Pres readPreview := by
+  unfold Bmff.readPreview
+  have := Pres.prvwBody
+  pres
+  all_goals exact Pres.prvwBody _
 
 theorem Pres.readUUIDBox : Pres readUUIDBox := by
   unfold Bmff.readUUIDBox
